@@ -80,7 +80,9 @@ def run(ctx):
                 n_ret += 1
                 e = mv.inline(r.value, depth=2)
                 parts = e.elts if isinstance(e, ast.Tuple) else [e]
-                const_map = [p_ for p_ in parts if (isinstance(p_, ast.Dict) and not p_.keys) or (isinstance(p_, ast.Call) and norm(p_.func) == "dict" and not p_.args and not p_.keywords)]
+                # (a lone `return {}` is an empty RESULT container - `{order: matrix}` of a hypergraph without hyperedges -, the node
+                # mapping is handed back next to a matrix)
+                const_map = [p_ for p_ in parts if isinstance(e, ast.Tuple) and ((isinstance(p_, ast.Dict) and not p_.keys) or (isinstance(p_, ast.Call) and norm(p_.func) == "dict" and not p_.args and not p_.keywords))]
                 const_mat = [p_ for p_ in parts if isinstance(p_, ast.Call) and p_.args and isinstance(p_.args[0], ast.Tuple) and p_.args[0].elts and all(isinstance(x, ast.Constant) and isinstance(x.value, int) for x in p_.args[0].elts) and any(t_ in norm(p_.func) for t_ in ("csr_", "csc_", "coo_", "zeros", "empty", "lil_"))]
                 if not const_map and not const_mat:
                     continue
